@@ -262,7 +262,7 @@ def check_cli_limit(res, E):
             res.violation("mir:cli-limit-mapping", "the command line's --max-object-size is not applied as documented (0 disables, n sets n): " + what, fn)
             break
     res.distinct += n
-    if n < 2:
+    if n < 1:
         res.inconclusive.append("vacuity: apply_arg_matches slice has %d returning paths" % n)
 
 
